@@ -357,7 +357,11 @@ fn scenario(ctx: &Ctx, idx: u64) -> Report {
                         }
                     }
                     None => {
-                        if plain_only && proper > 0 {
+                        // a waiter that arrived late in the run (those started in the instant of a
+                        // delivery can be that late) has no verdict before its own deadline
+                        if plain_only && proper > 0 && net.now() <= w.called.max(t_up) + bound {
+                            report.count("waiters_pending_before_their_deadline_no_verdict");
+                        } else if plain_only && proper > 0 {
                             report.violation(
                                 "C15",
                                 "waiter-unresolved",
